@@ -254,6 +254,7 @@ def run_scenario(sc, hooks=None):
     finally:
         G.Consumer = orig_consumer
     tr.unhandled = traps.unhandled
+    tr.second_firings = traps.second_firings
     tr.logged = traps.errors_logged
     tr.clock_errors = list(w.clock.errors)
     return tr
